@@ -7,8 +7,12 @@
 //! write (`poll_write` returning fewer bytes than offered is legal), and may
 //! "kill the process" while gates are pending.
 //!
-//! `spawn`, `task::yield_now` and `time::{sleep, timeout}` are *not* shimmed:
-//! harper-ls does not use them.  `sim::guard_unshimmed` documents that.
+//! The real crate is built with the same features harper-ls asks for (fs, rt,
+//! rt-multi-thread, macros, io-std, io-util, net) plus time, so that anything
+//! that compiles in harper-ls compiles here.  `spawn`, `spawn_blocking`, `net`
+//! and `time` are the real ones: the simulator polls the server inside the
+//! context of a current-thread runtime of its own and drives spawned tasks
+//! after every poll (harper-ls uses none of them today).
 
 pub use tokio_real::*;
 
